@@ -641,6 +641,19 @@ pub fn log_auth(addr: u64) {
     }
     h.n_auth += 1;
 }
+pub static mut CUSTOM_AUTH: [(u64, u32); 2] = [(0, 0); 2];
+pub static mut N_CUSTOM_AUTH: usize = 0;
+/// `require_auth_for_args`: recorded apart from the full-invocation authorisations
+pub fn log_auth_custom(addr: u64, _args: Words) {
+    let s = next_seq();
+    unsafe {
+        if N_CUSTOM_AUTH >= 2 {
+            harness_bug("custom auth log capacity");
+        }
+        CUSTOM_AUTH[N_CUSTOM_AUTH] = (addr, s);
+        N_CUSTOM_AUTH += 1;
+    }
+}
 pub fn log_wasm_update(hash: crate::BytesN<32>) {
     let s = next_seq();
     let h = host();
@@ -901,25 +914,26 @@ pub fn auth_granted(addr: u64) -> bool {
     unsafe { AUTH_GRANTED.lookup(key1(addr), false) & 1 == 1 }
 }
 
-pub static mut INTERN: WTable<16> = WTable::new();
+pub static mut INTERN: WTable<24> = WTable::new();
 /// Injective interning of a word tuple into one abstract id (never `EMPTY_ID`).
 pub fn intern(w: Words) -> u64 {
     unsafe { INTERN.lookup(w, true) }
 }
 
-pub static mut XDR: WTable<10> = WTable::new();
+pub static mut XDR: WTable<24> = WTable::new();
 /// `to_xdr`: uninterpreted, injective on the terms of one run.
 pub fn xdr_of(w: Words) -> u64 {
     unsafe { XDR.lookup(w, true) }
 }
 
+pub const KCAP: usize = 24;
 pub struct KTable {
     pub n: usize,
-    pub key: [u64; 10],
-    pub valid: [bool; 10],
-    pub val: [[u64; 4]; 10],
+    pub key: [u64; KCAP],
+    pub valid: [bool; KCAP],
+    pub val: [[u64; 4]; KCAP],
 }
-pub static mut KECCAK: KTable = KTable { n: 0, key: [0; 10], valid: [false; 10], val: [[0; 4]; 10] };
+pub static mut KECCAK: KTable = KTable { n: 0, key: [0; KCAP], valid: [false; KCAP], val: [[0; 4]; KCAP] };
 /// keccak256: uninterpreted, collision-free on the inputs of one run.
 pub fn keccak_of(id: u64) -> crate::BytesN<32> {
     let t = unsafe { &mut KECCAK };
@@ -932,7 +946,7 @@ pub fn keccak_of(id: u64) -> crate::BytesN<32> {
         r = [sel(h, t.val[i][0], r[0]), sel(h, t.val[i][1], r[1]), sel(h, t.val[i][2], r[2]), sel(h, t.val[i][3], r[3])];
         i += 1;
     }
-    if t.n >= 10 {
+    if t.n >= KCAP {
         harness_bug("keccak capacity");
     }
     let fresh: [u64; 4] = [nondet(), nondet(), nondet(), nondet()];
